@@ -366,6 +366,12 @@ func (sc *scenario) slot(t, h int) *handle {
 	return sc.slots[h]
 }
 
+func (sc *scenario) isForeign(k int) bool {
+	sc.mu.Lock()
+	defer sc.mu.Unlock()
+	return sc.foreign[k] != nil
+}
+
 func (sc *scenario) setOp(t int, s string) {
 	sc.mu.Lock()
 	sc.inOp[t] = s
@@ -390,7 +396,7 @@ func (sc *scenario) runThread(t int, script []op, s *sched, wg *sync.WaitGroup) 
 			} else {
 				hnd.pc, err = sc.mgr.ListenPacket(sc.addrs[o.K])
 			}
-			sc.emit(map[string]any{"ev": "ListenEnd", "t": t, "h": o.H, "k": o.K, "ok": err == nil, "err": fmt.Sprint(err), "foreign": sc.foreign[o.K] != nil})
+			sc.emit(map[string]any{"ev": "ListenEnd", "t": t, "h": o.H, "k": o.K, "ok": err == nil, "err": fmt.Sprint(err), "foreign": sc.isForeign(o.K)})
 			sc.mu.Lock()
 			if err == nil {
 				hnd.filled = true
@@ -403,6 +409,16 @@ func (sc *scenario) runThread(t int, script []op, s *sched, wg *sync.WaitGroup) 
 			sc.slots[o.H] = hnd
 			sc.cond.Broadcast()
 			sc.mu.Unlock()
+		case "free":
+			// the foreign socket that held the key's address goes away
+			sc.mu.Lock()
+			c := sc.foreign[o.K]
+			delete(sc.foreign, o.K)
+			sc.mu.Unlock()
+			if c != nil {
+				c.Close()
+			}
+			sc.emit(map[string]any{"ev": "Free", "t": t, "k": o.K})
 		case "close":
 			hnd := sc.slot(t, o.H)
 			if hnd.kind == "x" {
@@ -508,7 +524,7 @@ func (sc *scenario) connect(k int) {
 	msg := []byte(fmt.Sprintf("item %d\n", id))
 	// the item reaches the socket at some instant between ConnectStart and Connect
 	sc.emit(map[string]any{"ev": "ConnectStart", "item": id, "k": k})
-	if sc.foreign[k] != nil {
+	if sc.isForeign(k) {
 		// the address belongs to a foreign socket, not to the manager under test: nothing is sent
 	} else if sc.kinds[k] == "s" {
 		c, err := net.DialTimeout("tcp", sc.addrs[k], time.Second)
@@ -693,7 +709,7 @@ func (sc *scenario) finish(nThreads int, wg *sync.WaitGroup, watchdog time.Durat
 				used = true
 			}
 		}
-		if !used || sc.foreign[k] != nil {
+		if !used || sc.isForeign(k) {
 			continue
 		}
 		ok := false
@@ -785,13 +801,38 @@ func filterDump(d string) string {
 // ---------------------------------------------------------------------------------------------------------
 // modes
 // ---------------------------------------------------------------------------------------------------------
+// releaseListenerGoroutines lets every accept/read goroutine that is held before its channel operation proceed
+func (s *sched) releaseListenerGoroutines() {
+	s.mu.Lock()
+	var pids []int
+	for pid, p := range s.parked {
+		if pid > 100 && (p.label == "Gsend" || p.label == "Psel") {
+			pids = append(pids, pid)
+		}
+	}
+	s.mu.Unlock()
+	for _, pid := range pids {
+		s.release(pid)
+		s.settle(pid, nil, 200*time.Millisecond)
+	}
+}
+
+// runSchedule replays one TLC schedule.  Two placements of the gates around the selects are used (alternating):
+//
+//	lazy  - an API thread is held BEFORE its select until the model lets the select fire; a listener goroutine enters
+//	        its channel operation as soon as it has something to hand over;
+//	eager - an API thread enters its select at once and waits there (as the model's pc = A2 means); a listener
+//	        goroutine is held BEFORE its channel operation until the model moves it (hand-over, give-up, exit).
+//
+// Both are schedules of the same model; they differ in which real interleavings of select branches they can produce.
 func runSchedule(tr *hx.Trace, idx int, kinds map[int]string, sd schedule, watchdog time.Duration, stepTimeout time.Duration) {
+	eager := idx%2 == 0
 	leaks0, _ := countLeaks()
 	sc := newScenario(tr, kinds)
 	s := newSched()
 	s.active = true
 	installGate(s.gate)
-	sc.emit(map[string]any{"ev": "Sched", "id": idx, "dead": sd.Dead})
+	sc.emit(map[string]any{"ev": "Sched", "id": idx, "dead": sd.Dead, "eager": eager})
 	var wg sync.WaitGroup
 	for t := range sd.Script {
 		wg.Add(1)
@@ -815,11 +856,26 @@ func runSchedule(tr *hx.Trace, idx int, kinds map[int]string, sd schedule, watch
 			if gate == "A2" && s.parkedAt(t) != "A2" && sc.opOf(t) != "accept" {
 				break // the real select already fired (eager passive step)
 			}
+			if eager && gate == "A2" {
+				// the thread is already inside its select; the model now lets it complete
+				if label == "A2recv" {
+					s.releaseListenerGoroutines()
+				}
+				if s.parkedAt(t) == "A2" {
+					s.release(t)
+				}
+				s.settle(t, func() bool { return sc.threadDone(t) || sc.opOf(t) != "accept" }, stepTimeout)
+				break
+			}
 			if got := s.waitParked(t, stepTimeout, gate); got == "" {
 				diverged = fmt.Sprintf("step %d: thread %d not parked at %s (at %q, op %q)", si, t, gate, s.parkedAt(t), sc.opOf(t))
 			} else {
 				s.release(t)
-				s.settle(t, func() bool { return sc.threadDone(t) }, stepTimeout)
+				r := s.settle(t, func() bool { return sc.threadDone(t) }, stepTimeout)
+				if eager && label == "A1" && r == "parked:A2" {
+					s.release(t) // enter the select and wait there
+					s.settle(t, func() bool { return sc.threadDone(t) }, stepTimeout)
+				}
 			}
 		default:
 			g := pid
@@ -838,14 +894,18 @@ func runSchedule(tr *hx.Trace, idx int, kinds map[int]string, sd schedule, watch
 					// the I/O call returns (a connection/datagram is queued or the socket is closed), then the goroutine
 					// reaches its channel operation
 					r := s.settle(g, nil, stepTimeout)
-					if r == "parked:"+next {
+					if r == "parked:"+next && !eager {
 						s.release(g)
 						s.settle(g, nil, stepTimeout)
 					}
 				} else {
 					s.settle(g, nil, stepTimeout)
 				}
-			default: // Ggiveup, Pdone: happen by themselves in the real code
+			default: // Ggiveup, Pdone: happen by themselves in the real code once the goroutine is in its channel operation
+				if l := s.parkedAt(g); eager && (l == "Gsend" || l == "Psel") {
+					s.release(g)
+					s.settle(g, nil, stepTimeout)
+				}
 			}
 		}
 		if diverged != "" {
